@@ -1281,6 +1281,10 @@ def oracle(ctx, budget):
             orc.run_2d(name, Mx, Nz, k)
     oracle_repeat(ctx, orc, budget)
     n_names = oracle_method_names(ctx, orc, budget)
+    from . import c16_arrays
+    n_arr = c16_arrays.oracle_array_params(ctx, orc, budget)
+    c16_arrays.regressions(ctx, orc)
+    ctx.note(f'array-valued keyword grid (weights / alpha / method_kwargs[weights] / sequence-valued parameters x dtype and container): {n_arr} comparisons')
     ctx.note(f'method-name spellings through the optimizers: {n_names} comparisons')
     # the degenerate one-point input: no x versus linspace(-1, 1, 1)
     from pybaselines import Baseline
@@ -1329,6 +1333,8 @@ def run(ctx):
         weak = corr_binding(ctx)
         corr_normalise(ctx)
         corr_setups(ctx)
+        from . import c16_arrays
+        c16_arrays.corr_validator_dtype(ctx)
         corr_no_x(ctx)
         if weak:
             ctx.note(f'==-equal defaults of different numeric type (function versus method): {weak}')
@@ -1364,6 +1370,46 @@ def replay(rep):
             orc.run_2d(case['method'], case['N'][0], case['N'][1], case['seedk'])
         hits = [v for v in ctx.violations if v[0] == rep.get('key')]
         for key, what, _ in (hits or ctx.violations):
+            print('replay:', key, what)
+        if not ctx.violations:
+            print('replay: property holds on this input')
+        return 1 if ctx.violations else 0
+    if case.get('kind') == 'oracle-regression':
+        from . import c16_arrays
+
+        class _Stub5:
+            def __init__(self, seed):
+                self.seed, self.rng, self.violations, self.extra = seed, random.Random(f'{PROP}-{seed}'), [], {}
+
+            def case(self, *a, **k):
+                pass
+
+            def fail(self, key, what, case):
+                self.violations.append((key, what, case))
+        ctx = _Stub5(rep.get('seed', 0))
+        c16_arrays.regressions(ctx, Oracle(ctx, 1))
+        hits = [v for v in ctx.violations if v[0] == rep.get('key')]
+        for key, what, _ in hits[:3]:
+            print('replay:', key, what)
+        if not hits:
+            print('replay: property holds on this input')
+        return 1 if hits else 0
+    if case.get('kind') == 'oracle-array-param':
+        from . import c16_arrays
+
+        class _Stub4:
+            def __init__(self, seed):
+                self.seed, self.rng, self.violations, self.extra = seed, random.Random(f'{PROP}-{seed}'), [], {}
+
+            def case(self, *a, **k):
+                pass
+
+            def fail(self, key, what, case):
+                self.violations.append((key, what, case))
+        ctx = _Stub4(rep.get('seed', 0))
+        c16_arrays.oracle_array_params(ctx, Oracle(ctx, 3), 3, only=(case['dim'], case['method']))
+        hits = [v for v in ctx.violations if v[0] == rep.get('key')] or ctx.violations
+        for key, what, _ in hits[:5]:
             print('replay:', key, what)
         if not ctx.violations:
             print('replay: property holds on this input')
